@@ -10,19 +10,24 @@ EXTENDS Srtp, Json, SequencesExt
 CtxRow(t, k) == <<k, IF t[k].on THEN 1 ELSE 0, t[k].roc, t[k].last, t[k].rtcp, IF t[k].idle THEN 1 ELSE 0>>
 B(b) == IF b THEN 1 ELSE 0
 
-\* genuine packets already produced: <<proto, ssrc, idx, must, would>> evaluated in the post-state
+\* genuine packets already produced: <<proto, ssrc, idx, must, would, idealmust, txok>> evaluated in the post-state
+\* (txok = the sender context put the index the application meant on the wire)
 ProbeRow(t, p) ==
   LET c == IF t[p.ssrc].on THEN t[p.ssrc] ELSE FreshCtx IN
   IF p.proto = "rtp"
-  THEN <<"rtp", p.ssrc, p.idx, B(MustAcceptIdx(c, p.idx)), B(WouldAcceptIdx(c, p.idx)), B(IdealMustAt(ideal', p.ssrc, p.idx))>>
-  ELSE <<"rtcp", p.ssrc, p.idx, 1, 1, 1>>
+  THEN <<"rtp", p.ssrc, p.idx, B(MustAcceptIdx(c, p.idx) /\ p.widx = p.idx),
+         B(EstimateRoc(c.roc, c.last, SeqNo(p.widx)) = RocNo(p.widx)),
+         B(IdealMustAt(ideal', p.ssrc, p.idx)), B(p.widx = p.idx)>>
+  ELSE <<"rtcp", p.ssrc, p.idx, 1, 1, 1, 1>>
 
-\* the stream's next packet (+1 beyond the sender's highest), if the bounded sender may produce it
+\* the stream's next packet (+1 beyond the application's highest), if the bounded sender may produce it
 NextRow(t, s) ==
-  LET i == sHi'[s] + 1
-      c == IF t[s].on THEN t[s] ELSE FreshCtx
+  LET i  == sHi'[s] + 1
+      c  == IF t[s].on THEN t[s] ELSE FreshCtx
+      cs == IF tx'[s].on THEN tx'[s] ELSE FreshCtx
+      w  == EstimateRoc(cs.roc, cs.last, SeqNo(i)) * M + SeqNo(i)
   IN IF sHi'[s] >= 0 /\ i <= TopIdx
-     THEN <<s, i, B(MustAcceptIdx(c, i)), B(WouldAcceptIdx(c, i))>>
+     THEN <<s, i, B(MustAcceptIdx(c, i) /\ w = i), B(EstimateRoc(c.roc, c.last, SeqNo(w)) = RocNo(w))>>
      ELSE <<s, -1, 0, 0>>
 
 EdgeRec ==
@@ -37,7 +42,7 @@ EdgeRec ==
                post      |-> SetToSeq({CtxRow(rx', k) : k \in AllSsrcs}),
                probes    |-> SetToSeq({ProbeRow(rx', p) : p \in sent'}),
                next      |-> SetToSeq({NextRow(rx', s) : s \in Ssrcs}),
-               tx        |-> SetToSeq({<<s, sHi'[s], sRtcp'[s]>> : s \in Ssrcs}) ] ]
+               tx        |-> SetToSeq({<<s, B(tx'[s].on), tx'[s].roc, tx'[s].last, tx'[s].rtcp>> : s \in Ssrcs}) ] ]
 
 EmitEdge == PrintT(<<"EDGE", ToJson(EdgeRec)>>)
 NoEmit   == TRUE
